@@ -131,13 +131,14 @@ def run_repr(c):
         bbox, scrs = REPR_SRC[c["src"]]
         src = GeoBox.from_bbox(bbox, scrs, shape=(12, 16))
         chunks = (5, 7) if c["backend"] == "dask" else None
-        xx = xr_zeros(src, dtype="int16", chunks=chunks) + 3
+        cname = c.get("coord", "spatial_ref")
+        xx = xr_zeros(src, dtype="int16", chunks=chunks, crs_coord_name=cname) + 3
         xx.attrs["crs"] = scrs          # stale attributes that must not survive
-        xx.attrs["grid_mapping"] = "spatial_ref"
+        xx.attrs["grid_mapping"] = cname
         if c["rot"]:
             src = src.rotate(10)
             from odc.geo.xr import wrap_xr
-            xx = wrap_xr(np.full(src.shape, 3, dtype="int16"), src)
+            xx = wrap_xr(np.full(src.shape, 3, dtype="int16"), src, crs_coord_name=cname)
             if chunks:
                 xx = xx.chunk({d: 5 for d in xx.dims})
             xx.attrs["crs"] = scrs
@@ -149,6 +150,11 @@ def run_repr(c):
         else:
             out = obj.odc.reproject(dcrs)
             dst = obj.odc.output_geobox(dcrs)
+        # what users do next: arithmetic / astype drop xarray's encoding, recovery then relies on the coordinates alone
+        if c.get("post") == "arith":
+            out = out * 1 + 0
+        elif c.get("post") == "astype":
+            out = out.astype("float32")
         got = out.odc.geobox
         ev["geobox_eq"] = _approx_eq(got, dst)
         ev["crs_eq"] = bool(out.odc.crs is not None and out.odc.crs == dcrs and (c["src"] == c["dst"] or out.odc.crs != scrs))
@@ -157,11 +163,12 @@ def run_repr(c):
         for da in das:
             if "crs" in da.attrs or "grid_mapping" in da.attrs:
                 stale = True
-            sr = da.coords.get("spatial_ref")
-            if sr is None:
+            # every CRS-carrying coordinate left on the result (whatever its name) must name the destination CRS
+            from odc.geo.crs import CRS
+            srs = [cc for cc in da.coords.values() if cc.ndim == 0 and ("spatial_ref" in cc.attrs or "crs_wkt" in cc.attrs)]
+            if not srs:
                 stale = True
-            else:
-                from odc.geo.crs import CRS
+            for sr in srs:
                 wkt = sr.attrs.get("spatial_ref") or sr.attrs.get("crs_wkt")
                 if wkt is None or CRS(wkt) != dcrs:
                     stale = True
@@ -197,8 +204,10 @@ def run(ctx):
     total = len(cases)
     cases = ctx.subsample(cases, 6000 if q else 150000)
     events = ctx.pmap(run_hist, cases)
-    rcases = [{"src": s, "dst": d, "container": k, "backend": b, "how": h, "rot": r} for s in REPR_SRC for d in ("4326", "3857", "32633", "3035") for k in ("DataArray", "Dataset")
-              for b in ("numpy", "dask") for h in ("geobox", "crs") for r in (False, True) if not (r and b == "dask" and h == "crs")]
+    _, rcases = ctx.model_check("xr/ReprGen.tla", "ReprGen.cfg", emit=True, timeout=600)
+    rcases.sort(key=lambda c: json.dumps(c, sort_keys=True))
+    ctx.extra["reprojection_cases_total"] = len(rcases)
+    rcases = ctx.subsample(rcases, 500 if q else 10 ** 6)
     revents = ctx.pmap(run_repr, rcases)
     verdicts = _validate(ctx, events + revents)
     for ev, v in zip(events + revents, verdicts):
